@@ -402,6 +402,10 @@ class VNCLoggingServerFactory(portforward.ProxyFactory):  # type: ignore[misc]
         pass
 
     def clientConnectionLost(self, client: VNCLoggingServerProxy) -> None:
-        if self._out:
-            self._out.close()
-            self._out = None
+        # close the file of this connection; with several viewers self._out
+        # is the file of the one that connected last
+        out = getattr(client.recorder, "__self__", None)
+        if isinstance(self.output, str) and out is not None:
+            out.close()
+            if out is self._out:
+                self._out = None
